@@ -22,7 +22,7 @@ def _t(mod, *names):
     return [(n, "FlooVerif.Props." + mod) for n in names]
 
 THEOREMS = {
-    "C01": _t("C08Slot", "FlooVerif.C08S.slot_2d", "FlooVerif.C08S.slot_1d") + _t("HwTieShape", "FlooVerif.HwTie.rtl_shape") + _t("HwTieWhole", "FlooVerif.HwTie.selectAll_pinned", "FlooVerif.HwTie.routerAll_pinned", "FlooVerif.HwTie.compAll_pinned") + _t("HwTiePorts", "FlooVerif.HwTie.chimneyIds_pinned") + _t("C01", "FlooVerif.C01.holds_iff_spec", "FlooVerif.C01.matching_stable") +
+    "C01": _t("C01Valid", "FlooVerif.C01V.model_sam_decodes_owner", "FlooVerif.C01V.compiled_ranges_valid") + _t("C08Slot", "FlooVerif.C08S.slot_2d", "FlooVerif.C08S.slot_1d") + _t("HwTieShape", "FlooVerif.HwTie.rtl_shape") + _t("HwTieWhole", "FlooVerif.HwTie.selectAll_pinned", "FlooVerif.HwTie.routerAll_pinned", "FlooVerif.HwTie.compAll_pinned") + _t("HwTiePorts", "FlooVerif.HwTie.chimneyIds_pinned") + _t("C01", "FlooVerif.C01.holds_iff_spec", "FlooVerif.C01.matching_stable") +
            _t("C01U", "FlooVerif.C01U.sam_decodes_owner", "FlooVerif.C01U.overlap_rejected", "FlooVerif.C01U.rule_origin") +
            [("FlooVerif.checkNoOverlap_iff", "FlooVerif.Lemmas.RouteMapLemmas")],
     "C02": _t("HwTieShape", "FlooVerif.HwTie.rtl_shape") + _t("HwTieWhole", "FlooVerif.HwTie.selectAll_pinned", "FlooVerif.HwTie.routerAll_pinned") + _t("C02", "FlooVerif.C02.arrives_of_potential", "FlooVerif.C02.trace_nodup", "FlooVerif.C02.walk_fuel_mono") +
@@ -80,7 +80,7 @@ THEOREMS = {
               "FlooVerif.C16.trim_sizes", "FlooVerif.C16.trim_no_touching"),
     "C17": _t("C17", "FlooVerif.C17.mkRange_wf", "FlooVerif.C17.mkRange_based", "FlooVerif.C17.setIdx_spec",
               "FlooVerif.C17.setIdx_unbased", "FlooVerif.C17.rejects_contradictory", "FlooVerif.C17.rejects_empty",
-              "FlooVerif.C17.rejects_negative", "FlooVerif.C17.rejects_underspecified"),
+              "FlooVerif.C17.rejects_negative", "FlooVerif.C17.mkRange_base_nonneg", "FlooVerif.C17.rejects_underspecified"),
     "C18": _t("C18Tree", "FlooVerif.C18T.lvl_select_in", "FlooVerif.C18T.lvl_select_tree", "FlooVerif.C18T.level_of_tree", "FlooVerif.C18T.level_beyond", "FlooVerif.C18T.tree_nodes", "FlooVerif.C18T.tree_inTree", "FlooVerif.C18T.other_tree_excluded") +
            _t("C18", "FlooVerif.C18.not_inTree_of_next") + _t("C18Range", "FlooVerif.C18T.cartNames_eq_cartesian") + _t("C18Names", "FlooVerif.C18N.name1_inj", "FlooVerif.C18N.name2_inj", "FlooVerif.C18N.split_unique") +
            _t("C18", "FlooVerif.C18.range_product", "FlooVerif.C18.range_error", "FlooVerif.C18.range_empty",
